@@ -217,7 +217,7 @@ pub fn c18(tier: &str) -> i32 {
     ents.extend(long_strings(thorough).into_iter().map(Ent::Bytes));
     let n_bytes = ents.len();
     let seeds: u64 = if thorough { 20_000 } else { 500 };
-    ents.extend((0..seeds).map(Ent::Seed));
+    ents.extend((crate::report::sweep_base(seeds)..crate::report::sweep_base(seeds) + seeds).map(Ent::Seed));
     let tally = ents
         .par_iter()
         .fold(Tally::default, |mut t, e| {
@@ -356,7 +356,7 @@ fn mutator_ents(thorough: bool) -> Vec<Ent> {
         v.push(Ent::Bytes(vec![0xffu8; n]));
     }
     let seeds: u64 = if thorough { 5000 } else { 300 };
-    v.extend((0..seeds).map(Ent::Seed));
+    v.extend((crate::report::sweep_base(seeds)..crate::report::sweep_base(seeds) + seeds).map(Ent::Seed));
     v
 }
 
